@@ -55,7 +55,9 @@ func runSession(r Round) *outcome {
 	}
 	sm := srv.SM
 	defer func() { // also on an aborted round (recovered panic): nothing of this server may survive
-		sm.Close()
+		if !roundAborted {
+			sm.Close()
+		}
 		srv.Cancel()
 	}()
 	var mine counter
@@ -121,8 +123,7 @@ func runSession(r Round) *outcome {
 		}
 	}
 	rc.release()
-	if ok, dump := rc.waitBlocked(10*time.Second, 40*time.Second); !ok {
-		o.failf("C16/session-manager/close-did-not-return", "Close or an in-flight operation did not return within 10s"+"; goroutines inside the code under test:\n%s", dump)
+	if !rc.mustReturn(o, base, "Close or an in-flight CloseConnection/HandlePacket/AcceptConnection") {
 		return o
 	}
 	rc.measure(o)
